@@ -57,6 +57,20 @@ pub(super) fn run_artifact_fetch(
     };
     buf.truncate(read_bytes);
 
+    // A page that stops inside a multi-byte character ends before it (unless nothing would be
+    // left), so that following the returned `bytes` reproduces the text exactly.
+    if offset + (read_bytes as u64) < total_bytes {
+        let mut end = buf.len();
+        while end > 0
+            && matches!(std::str::from_utf8(&buf[..end]), Err(err) if err.error_len().is_none())
+        {
+            end -= 1;
+        }
+        if end > 0 {
+            buf.truncate(end);
+        }
+    }
+
     let (content, utf8_truncated, used_bytes) = truncate_utf8(&buf, max_bytes);
     let truncated = utf8_truncated || (offset + read_bytes as u64) < total_bytes;
 
